@@ -15,7 +15,7 @@ def run(ctx):
     quick = ctx.tier == "quick"
     ctx.build_harness()
     ctx.tlc_must_pass("MC_Renderer", "MC_Renderer_q" if quick else "MC_Renderer_t", timeout=3000)
-    r = rendcheck.run_rend_traces(ctx, ["vm", "corpus", "reuse", "geometry"], 400 if quick else 8000)
+    r = rendcheck.run_rend_traces(ctx, ["vm", "corpus", "reuse", "geometry"], 400 if quick else 30000)
     for d in r["diags"]:
         if rendcheck.classify(d) == "vm":
             ctx.violation(rendcheck.vkey(d), "register machine / paint / enabling differs: %s" % d.get("what"), d)
